@@ -1,6 +1,6 @@
 (* C35 — Push, pull, fetch and clone transfer complete and consistent data.  Property theorems only. *)
 From Coq Require Import NArith List Bool.
-From Dolt Require Import C08.Model C08.Spec C35.Model C35.Spec C35.Proofs.
+From Dolt Require Import C08.Model C08.Spec C35.Model C35.Spec C35.Corr C35.Proofs.
 Import ListNotations.
 Local Open Scope N_scope.
 
@@ -64,3 +64,15 @@ Theorem C35_data_complete_spec :
   forall u s a, data_complete u s a = true <-> (forall x, reach u [a] x -> has s x = true).
 Proof. exact data_complete_spec. Qed.
 Print Assumptions C35_data_complete_spec.
+
+Theorem C35_oracle_on_model :
+  forall i, model_complete i = true -> i_points i = [] -> oracle i (model_obs i) = true.
+Proof. exact oracle_on_model. Qed.
+Print Assumptions C35_oracle_on_model.
+
+Theorem C35_point_ok_of_transfer :
+  forall u ts d k, sink_closed u (r_store d) -> refs_present d ->
+  let d' := transfer u d (firstn k ts) in
+  point_ok u (r_store d', map snd (r_refs d')) = true.
+Proof. exact point_ok_of_transfer. Qed.
+Print Assumptions C35_point_ok_of_transfer.
